@@ -38,6 +38,9 @@ pub fn enumerate(tier: Tier) -> Vec<RTy> {
             all.extend(gen::enumerate_spines(&[leaf("String"), leaf("Item")], &[leaf("i32")], 4));
         }
     }
+    // path-qualified spellings of project types at every constructor position (the translator
+    // identifies a type by its last path segment)
+    all.extend(gen::enumerate_spines(&[RTy::named("models::Item"), RTy::named("crate::dto::Kind")], &[leaf("i32")], 2));
     // a parameter or field of reference type other than &str is not in the documented set at
     // top level for owned sites, but is harmless to the translator: keep everything.
     let mut seen = HashSet::new();
